@@ -247,3 +247,25 @@ Fixpoint cs_stale_final (mem : Z) (ts : list cs_thread) (sched : list nat) : Z *
       | Some t => let '(mem', t') := cs_stale_step mem t in cs_stale_final mem' (cs_update i t' ts) tl
       end
   end.
+
+(* ------------------------------------------------------------------------------------------ *)
+(* Restart against a concurrent AddNotarizedBlock.  Restart = test (phase < Share) + reset; under
+   the round mutex the two are one step (RaCheck immediately followed by RaAct); a variant that
+   tests before taking the mutex lets RaNotarize come in between.
+   State: phase, number of notarized blocks, and whether the pending Restart passed its test. *)
+Inductive ra_step := RaCheck | RaAct | RaNotarize.
+Record ra_state := { ra_phase : Z; ra_blocks : nat; ra_passed : bool }.
+
+Definition ra_exec (s : ra_state) (st : ra_step) : ra_state :=
+  match st with
+  | RaCheck => {| ra_phase := ra_phase s; ra_blocks := ra_blocks s; ra_passed := Z.ltb (ra_phase s) sm_Share |}
+  | RaAct => if ra_passed s then {| ra_phase := 0; ra_blocks := 0%nat; ra_passed := false |}
+             else {| ra_phase := ra_phase s; ra_blocks := ra_blocks s; ra_passed := false |}
+  | RaNotarize => {| ra_phase := Z.max (ra_phase s) sm_Share; ra_blocks := S (ra_blocks s); ra_passed := ra_passed s |}
+  end.
+
+Definition ra_run (phase : Z) (sched : list ra_step) : ra_state :=
+  fold_left ra_exec sched {| ra_phase := phase; ra_blocks := 0%nat; ra_passed := false |}.
+
+(* once AddNotarizedBlock has run, the round is at Share or later and holds the block *)
+Definition ra_safe (s : ra_state) : bool := Z.leb sm_Share (ra_phase s) && Nat.leb 1 (ra_blocks s).
